@@ -85,13 +85,18 @@ Definition rp_while (fuel : nat) (s : Z * Z) : M (Z * Z + Z) :=
   ltac:(let t := eval cbv beta zeta delta [g_roundupPowOfTwo] in (g_roundupPowOfTwo fuel 0) in
         match t with context [while fuel ?c ?b ?p _] => exact (while fuel c b p s) end).
 
+(* what the generated function does with the loop's result *)
+Definition rp_after : (Z * Z + Z) -> M Z :=
+  ltac:(let t := eval cbv beta zeta delta [g_roundupPowOfTwo] in (g_roundupPowOfTwo 0%nat 0) in
+        match t with bind (while _ _ _ _ _) ?k => exact k end).
+
 (* ... is the model's bits_loop, fuel for fuel, for every start state *)
 Lemma rp_while_bits : forall fuel i pos,
   rp_while fuel (pos, i) = match bits_loop fuel i pos with Some p => Ret (inl (p, 0)) | None => NoFuel end.
 Proof.
   unfold rp_while. induction fuel as [|f IH]; intros i pos; [reflexivity|].
   rewrite while_step. cbn [bits_loop]. unfold roundup_stop, roundup_shift. cbv beta iota zeta delta [bind].
-  destruct (i =? 0) eqn:E; cbn [negb].
+  destruct (i =? 0) eqn:E; cbn [negb]; cbv beta iota zeta.
   - apply Z.eqb_eq in E. subst i. reflexivity.
   - apply IH.
 Qed.
@@ -111,11 +116,9 @@ Qed.
 Theorem code_roundup_fuel : forall fuel x,
   g_roundupPowOfTwo fuel x = lift_fuel (option_map (fun pos => u32 (Z.shiftl roundup_base pos)) (bits_loop fuel x 0)).
 Proof.
-  intros. change (g_roundupPowOfTwo fuel x) with
-    (bind (rp_while fuel (0, x)) (fun lr => match lr with
-       | inl (pos, _) => bind (m_shl 1 pos) (fun v => Ret (wrap 32 v)) | inr v => Ret v end)).
+  intros. change (g_roundupPowOfTwo fuel x) with (bind (rp_while fuel (0, x)) rp_after).
   rewrite rp_while_bits. destruct (bits_loop fuel x 0) as [p|] eqn:E; [|reflexivity].
-  apply bits_loop_ge in E. cbn [bind option_map lift_fuel]. unfold m_shl.
+  apply bits_loop_ge in E. cbv beta iota zeta delta [rp_after bind m_shl option_map lift_fuel].
   destruct (Z.ltb_spec p 0); [lia|]. reflexivity.
 Qed.
 
